@@ -451,7 +451,9 @@ def oracle_dense(spec, real=None, what="two-site"):
             bad.append(("%s%s chain%s: sites %s differ from the propagator of the full Liouvillian"
                         % ("homogeneous " if spec.get("homogeneous") else "", what,
                            " with ChainControl" if spec.get("controls") else
-                           " inspected between steps" if spec.get("inspect") else "", key), {"spec": spec, "sites": keep, "max_abs_difference": err}))
+                           " inspected between steps" if spec.get("inspect") else
+                           " re-initialised after changing the %s" % spec["reinit"]
+                           if spec.get("reinit") else "", key), {"spec": spec, "sites": keep, "max_abs_difference": err}))
     return bad
 
 
@@ -825,6 +827,7 @@ def mode_cases(rng, tier):
     ident = {"kind": "identity"}
     cases = [
         gen_spec(rng, 2, "coupled", 2, pts=[None, None], steps=2),
+        gen_spec(rng, 2, "coupled", 1, pts=[None, None], steps=1),
         gen_spec(rng, 3, "coupled", 1, pts=[None, ident, None], steps=2),
         gen_spec(rng, 4, "coupled", 2, pts=[None, tempo, None, None], steps=1),
         gen_spec(rng, 5, "uncoupled", 1, pts=[None, None, tempo, None, None], steps=1),
@@ -883,7 +886,9 @@ def compare_modes(res, specs, fail=False, started=None):
             if not o.get("ok"):
                 res.disagree("execution mode %s is not usable: %s: %s (%s)"
                              % (m, o.get("exc"), o.get("msg"), desc), {"mode": m, "result": o})
-                broken_modes.setdefault((m, o.get("exc")), (spec, o))
+                is_import = o.get("exc") == "AttributeError" and "futures" in (o.get("msg") or "")
+                broken_modes.setdefault((m, o.get("exc"), None if is_import else len(spec["dims"])),
+                                        (spec, o))
                 continue
             d = maxdiff(ref, o)
             res.mode_diffs = max(getattr(res, "mode_diffs", 0.0), d)
@@ -896,8 +901,9 @@ def compare_modes(res, specs, fail=False, started=None):
     if hasattr(res, "mode_diffs"):
         res.notes.append("largest difference between the execution modes: %.3g" % res.mode_diffs)
     if fail:
-        for (m, exc), (spec, o) in broken_modes.items():
-            res.fail(KEY_MODE % (m, exc),
+        for (m, exc, nlen), (spec, o) in broken_modes.items():
+            res.fail(KEY_MODE % (m, exc) if nlen is None else
+                     "execution mode %s fails on a %d-site chain (%s)" % (m, nlen, exc),
                      {"backend_config": {"parallel": m}, "exception": exc, "message": o.get("msg"),
                       "how": "fresh interpreter: PtTebd(..., backend_config={'parallel': %r})"
                              ".compute(%d)" % (m, spec["steps"]),
@@ -1231,6 +1237,12 @@ def correspondence(res, tier, rng):
         for key, payload in bad:
             res.disagree("real code violates: " + key, payload)
 
+    for a, b_spec, change in reinit_specs(rng):
+        res.case("reinit:" + change, True)
+        res.count("relation:reinit:" + change)
+        for key, payload in oracle_reinit(a, b_spec, change):
+            res.disagree("real code violates: " + key, payload)
+
     # -- (8) the three execution modes, fresh interpreters --------------------------------------
     compare_modes(res, None, started=started)
 
@@ -1249,6 +1261,64 @@ def homogeneous_specs(rng, tempo):
         ("commuting", gen_spec(rng, 4, "commuting", 1, steps=2, epsrel=1e-10, homogeneous=True,
                                site_terms=False, sites=[0, 1, 2, 3, [1, 2], [2, 3]])),
     ]
+
+
+def reinit_specs(rng):
+    """histories  compute -> change the chain / the parameters -> initialize() -> compute :
+    (spec before, spec after, what changed); two-site chains, so the reference is exact"""
+    out = []
+    for change in ("site dissipator", "coupling", "dt", "order"):
+        a = gen_spec(rng, 2, "coupled", rng.choice([1, 2]), steps=2, epsrel=1e-10, dt=0.1,
+                     sites=[0, 1, [0, 1]])
+        b = json.loads(json.dumps(a))
+        if change == "site dissipator":
+            b["site_diss"][1] = b["site_diss"][1] + [[0.9, enc(_nonnormal(rng, 2))]]
+        elif change == "coupling":
+            b["nn_h"][0] = b["nn_h"][0] + [[enc(_herm(rng, 2, 1.5)), enc(_herm(rng, 2, 1.0))]]
+        elif change == "dt":
+            b["dt"] = 0.25
+        else:
+            b["order"] = 3 - a["order"]
+        b["reinit"] = change
+        out.append((a, b, change))
+    return out
+
+
+def run_reinit(a, b_spec, change):
+    """the history on ONE PtTebd object; returns the results of the second computation"""
+    import oqupy
+    b = build(a)
+    obj = oqupy.PtTebd(initial_augmented_mps=b.mps, system_chain=b.sc, process_tensors=b.pts,
+                       parameters=b.par, chain_control=b.ctl, dynamics_sites=b.sites)
+    obj.compute(a["steps"], progress_type="silent")
+    if change == "site dissipator":
+        g, op_ = b_spec["site_diss"][1][-1]
+        b.sc.add_site_dissipation(1, dec(op_), g)
+    elif change == "coupling":
+        x, y = b_spec["nn_h"][0][-1]
+        b.sc.add_nn_hamiltonian(0, dec(x), dec(y))
+    elif change == "dt":
+        b.par.dt = b_spec["dt"]
+    else:
+        b.par.order = b_spec["order"]
+    obj.initialize()
+    r = obj.compute(b_spec["steps"], progress_type="silent")
+    dyn = {}
+    for s_ in b.sites:
+        key = str(s_) if isinstance(s_, int) else ",".join(str(x) for x in s_)
+        dyn[key] = [np.asarray(x) for x in r["dynamics"][s_].states]
+    return {"norm": np.asarray(r["norm"]), "time": np.asarray(r["time"]), "dyn": dyn}
+
+
+def oracle_reinit(a, b_spec, change):
+    real = run_reinit(a, b_spec, change)
+    bad = oracle_dense(b_spec, real, "two-site")
+    want = [k * b_spec["dt"] for k in range(b_spec["steps"] + 1)]
+    if len(real["time"]) != len(want) or np.abs(np.real(real["time"]) - want).max() > 1e-12:
+        bad.append(("time stamps after re-initialisation (changed: %s)" % change,
+                    {"spec": b_spec, "times": [float(np.real(t)) for t in real["time"]]}))
+    bad += oracle_norm(b_spec, real)
+    return bad
 
 
 def control_specs(rng, tempo):
@@ -1287,7 +1357,10 @@ def search(res, rng=None):
     rng = rng or random.Random(res.seed + 1)
     tempo = {"kind": "tempo", "alpha": 0.08, "axis": "z"}
     # (a) every execution mode is usable and gives the same results
-    compare_modes(res, [gen_spec(rng, 3, "coupled", 2, steps=2),
+    #     — chain lengths 2 (a layer without gates), 3, 4; both Trotter orders
+    compare_modes(res, [gen_spec(rng, 2, "coupled", 1, steps=2),
+                        gen_spec(rng, 2, "coupled", 2, steps=1),
+                        gen_spec(rng, 3, "coupled", 2, steps=2),
                         gen_spec(rng, 4, "coupled", 1, steps=2, pts=[None, tempo, None, None])],
                   fail=True)
     # (b) relations of the property text; first the inputs on which the real tensors violated the
@@ -1313,6 +1386,11 @@ def search(res, rng=None):
     for what, spec in todo:
         for key, payload in relations(what, spec):
             res.fail(key, payload)
+    for a, b_spec, change in reinit_specs(rng):
+        for key, payload in oracle_reinit(a, b_spec, change):
+            res.fail(key, dict(payload, history="compute(%d); change the %s; initialize(); "
+                                                "compute(%d)" % (a["steps"], change, b_spec["steps"]),
+                               spec_before=a))
     # (c) completion orders on the real back-end
     for n in (4, 5, 6):
         for ly in cheap_gates(n):
